@@ -149,6 +149,12 @@ impl ConnectionManager {
                     crate::verif::note_accept(connecting.is_some());
                     if let Some(connecting) = connecting {
                         self.handle_incoming(connecting);
+                    } else {
+                        // The endpoint is closed or its driver is gone (e.g. the runtime is being
+                        // torn down), so `accept()` completes immediately from now on. Yield
+                        // instead of busy-looping so that the runtime can run, or cancel, this
+                        // task and the others.
+                        tokio::task::yield_now().await;
                     }
                 },
                 Some(connecting_output) = self.pending_connections.join_next() => {
